@@ -215,10 +215,25 @@ def exh(ctx, fams, flavours):
                     return False
                 st.extend(cfg.succ[x])
             return True
+        def same_iteration(y):
+            # leaving an inner loop (e.g. the retry loop of `it.find(..)`) but not the edge iteration: every path from y comes back
+            # to next() on the same iterator (not through ITER / TAKE), or ends in FOUND
+            stop = {K.sites.get('ITER'), K.sites.get('TAKE')} - {None}
+            seen = set()
+            st = [y]
+            while st:
+                x = st.pop()
+                if x in seen or x in found or x == K.sites['NEXT']:
+                    continue
+                seen.add(x)
+                if x in stop or b['blocks'][x]['term']['k'] == 'return':
+                    return False
+                st.extend(cfg.succ[x])
+            return True
         ls = cfg.loops()
         n_exits = 0
         odd = []
-        kinds = {'exhausted': 0, 'found': 0}
+        kinds = {'exhausted': 0, 'found': 0, 'continue': 0}
         for h, body in sorted(ls.items()):
             for x in sorted(body):
                 for y in cfg.succ[x]:
@@ -238,6 +253,8 @@ def exh(ctx, fams, flavours):
                                 ok = 'exhausted'
                     if ok is None and all_paths_hit_found(y):
                         ok = 'found'
+                    if ok is None and K.sites['NEXT'] in body and same_iteration(y):
+                        ok = 'continue'
                     if ok is None:
                         odd.append('bb%d->bb%d (%s)' % (x, y, t['sp']))
                     else:
